@@ -1,4 +1,4 @@
 From Coq Require Import ExtrOcamlBasic NArith List.
 From LV Require Import lib.Conv model.Leecher spec.LeecherSpec.
 Extraction "model.ml" conv_roots b_init bstep bstep_old brun brun_old base_spec_ok
-  p_init prun script_oracle peer_spec_ok.
+  p_init pstep prun script_oracle peer_spec_ok.
